@@ -70,11 +70,11 @@ def table_case(draw, adaptive=None, allow_f32=True, max_n=120, kmin=-3):
             case["rate"] = draw(st.sampled_from([0.5, 1.0, 2.0]))
         else:
             case["target"] = draw(st.floats(0.02, 0.98))
-        opt = draw(st.sampled_from(["none", "none", "min_step", "max_n_steps"]))
-        if opt == "min_step":
-            case["min_step"] = draw(st.sampled_from([0.5, 0.25, 0.1, 0.03, 0.01, 1e-3]))
-        elif opt == "max_n_steps":
-            case["max_n_steps"] = draw(st.integers(1, 40))
+        opt = draw(st.sampled_from(["none", "none", "min_step", "max_n_steps", "both"]))
+        if opt in ("min_step", "both"):
+            case["min_step"] = draw(st.sampled_from([0.7, 0.5, 0.3, 0.25, 0.1, 0.03, 0.01, 1e-3]))
+        if opt in ("max_n_steps", "both"):
+            case["max_n_steps"] = draw(st.integers(1, 40) if opt == "max_n_steps" else st.integers(1, 6))
         if draw(st.integers(0, 3)) == 0:
             case["n_steps"] = draw(st.integers(1, 20))  # ignored by an adaptive schedule
         if case["route"] == "base":
